@@ -204,6 +204,7 @@ import (
 	"encoding/base64"
 	"encoding/json"
 	"os"
+	"time"
 %s
 )
 
@@ -211,6 +212,8 @@ type job struct {
 	Pkg   string   ` + "`json:\"pkg\"`" + `
 	Texts []string ` + "`json:\"texts\"`" + `
 }
+
+var hangs int
 
 type result struct {
 	Pkg  string    ` + "`json:\"pkg\"`" + `
@@ -235,7 +238,28 @@ func main() {
 		for _, enc64 := range j.Texts {
 			raw, _ := base64.StdEncoding.DecodeString(enc64)
 			t := string(raw)
-			toks, bad := lexers[j.Pkg](t, len(t)+8)
+			// a Next() that never returns must become a verdict, not a dead driver: run under a watchdog; the goroutine of a hung run is
+			// abandoned, and after three of them the remaining texts of the process are not started
+			var toks [][]int
+			bad := "not run: three earlier runs did not return"
+			if hangs < 3 {
+				type outcome struct {
+					toks [][]int
+					bad  string
+				}
+				ch := make(chan outcome, 1)
+				go func() {
+					tk, b := lexers[j.Pkg](t, len(t)+8)
+					ch <- outcome{tk, b}
+				}()
+				select {
+				case o := <-ch:
+					toks, bad = o.toks, o.bad
+				case <-time.After(5 * time.Second):
+					hangs++
+					bad = "hang: the lexer did not return within 5 s"
+				}
+			}
 			if toks == nil {
 				toks = [][]int{}
 			}
